@@ -64,6 +64,9 @@ def run_params(case):
     toc = spec['param_toc']
     idw = 2 if version >= 4 else 1
     net = Net(needs_resending=False, delays=case['delays'], default_delay=0.001)
+    resending = bool(case.get('resending'))
+    if resending:
+        net.delays = []     # the connection itself is set up without late replies (C03's subject); they start with the requests
     nthreads = len(case['threads'])
     with SimEnv(spec, net, case.get('schedule'), horizon=200.0) as env:
         s = env.s
@@ -77,6 +80,10 @@ def run_params(case):
             return out
         dev = env.device
         link = env.world.links[0]
+        if resending:
+            # a radio-like link: requests not answered within 0.2 s are sent again, the device then answers twice
+            link.needs_resending = True
+            net.delays = list(case['delays'])
         # initial values
         for i, p in enumerate(toc):
             want = str(_decode(p['type'], dev.pack_param(i, dev.values[i])))
@@ -197,6 +204,8 @@ def run_params(case):
                 p = toc[idx]
                 ops = [r for r in sets if r['idx'] == idx]
                 wire = [d for k, d, tt in dev_reqs if k == 'write' and int.from_bytes(d[:idw], 'little') == idx]
+                if resending:
+                    wire = [d for j, d in enumerate(wire) if j == 0 or d != wire[j - 1]]
                 expect = []
                 unconstrained = False
                 for r in ops:
@@ -215,6 +224,8 @@ def run_params(case):
                             out.fail('param:set-raised', '%s: set_value(%s, %r) raised %r' % (desc, r['name'], v, r['raised']))
                         else:
                             expect.append(idx.to_bytes(idw, 'little') + enc)
+                if resending:
+                    expect = [d for j, d in enumerate(expect) if j == 0 or d != expect[j - 1]]
                 if wire != expect and not unconstrained:
                     out.fail('param:write-wire', '%s: %s (%s): device received %r, expected %r' % (
                         desc, names[idx], PARAM_TYPES[p['type']][0], [w.hex() for w in wire], [e.hex() for e in expect]))
@@ -223,12 +234,48 @@ def run_params(case):
         puts = cf.param.param_updater.request_queue.put_log[put0:]
         put_seq = [(pk.channel, bytes(pk.data)) for pk in puts]
         wire_seq = [(ch, d) for tt, port, ch, d, c in link.tx[n_tx0:] if port == 2 and ch in (1, 2, 3)]
-        if wire_seq != put_seq:
+        if wire_seq != put_seq and not resending:
             out.fail('param:wire-order', '%s: queued %r, transmitted %r' % (desc, [(c, d.hex()) for c, d in put_seq][:12], [(c, d.hex()) for c, d in wire_seq][:12]))
         tx_times = [tt for tt, port, ch, d, c in link.tx[n_tx0:] if port == 2 and ch in (1, 2, 3)]
         # replies delivered (exclude notifications: misc cmd 1)
         rx = [(tt, ch, d) for tt, port, ch, d in link.rx_log[n_rx0:] if port == 2 and ch in (1, 2, 3) and not (ch == 3 and d[0] == 1)]
-        for k in range(1, len(tx_times)):
+        # walk through transmissions and deliveries in time order: a request may only go out when the previous one has been
+        # answered (a repeat of the outstanding request is a retransmission on a link that needs resending)
+        def _pat(ch, d):
+            # read and write replies carry no more than the parameter id: a late duplicate of an earlier reply for the same
+            # parameter cannot be told from the answer (protocol limit), whichever of the two channels it is on
+            return (3, bytes(d[:3])) if ch == 3 else ('rw', bytes(d[:idw]))
+        merged = []
+        for kind, j in link.order:
+            if kind == 'tx' and j >= n_tx0:
+                tt, port, ch, d, c = link.tx[j]
+                if port == 2 and ch in (1, 2, 3):
+                    merged.append((tt, 1, 'tx', ch, d))
+            elif kind == 'rx' and j >= n_rx0:
+                tt, port, ch, d = link.rx_log[j]
+                if port == 2 and ch in (1, 2, 3) and not (ch == 3 and d[0] == 1):
+                    merged.append((tt, 0, 'rx', ch, d))
+        waiting = None
+        ptr = 0
+        for tt, _, kind, ch, d in merged:
+            if kind == 'tx':
+                this = (ch, bytes(d))
+                if resending and this in put_seq[:ptr] and (waiting is not None or ptr >= len(put_seq) or put_seq[ptr] != this):
+                    continue    # retransmission of an earlier request (its retry timer only stops on a reply on its own channel)
+                if ptr >= len(put_seq) or put_seq[ptr] != this:
+                    if resending:
+                        out.fail('param:wire-order', '%s: queued %r, transmission %d is %r; order %r' % (desc, [(c, x.hex()) for c, x in put_seq][:12], ptr, (ch, bytes(d).hex()),
+                                                                                                 [(round(a_, 3), k_, c_, bytes(d_).hex()) for a_, _x, k_, c_, d_ in merged][:14]))
+                    break
+                ptr += 1
+                if waiting is not None:
+                    out.fail('param:not-one-at-a-time', '%s: request %s sent at %.4f while %s (sent %.4f) was not answered yet; order %r' % (
+                        desc, bytes(d).hex(), tt, waiting[1][1].hex(), waiting[2], [(round(a_, 3), k_, c_, bytes(d_).hex()) for a_, _x, k_, c_, d_ in merged][:14]))
+                    break
+                waiting = (_pat(ch, d), this, tt)
+            elif waiting is not None and _pat(ch, d) == waiting[0]:
+                waiting = None
+        for k in range(1, len(tx_times) if not resending else 0):
             if k - 1 >= len(rx):
                 out.fail('param:not-one-at-a-time', '%s: request %d sent at %.4f but only %d replies were ever delivered' % (desc, k, tx_times[k], len(rx)))
                 break
@@ -251,7 +298,7 @@ def run_params(case):
                 continue
             if idx < len(toc):
                 value_events.append((tt, names[idx], str(_decode(toc[idx]['type'], body))))
-        for kind in ('param', 'group', 'all'):
+        for kind in ('param', 'group', 'all') if not resending else ():
             got = [(n, v) for tt, n, v in calls[kind]]
             want = [(n, v) for tt, n, v in value_events]
             if got != want:
@@ -261,7 +308,7 @@ def run_params(case):
             last[n] = v
         for i, p in enumerate(toc):
             want = last.get(names[i])
-            if want is None:
+            if want is None or resending:    # with duplicated replies which value packet counts as the answer is not fixed
                 continue
             got = cf.param.values.get(p['group'], {}).get(p['name'])
             try:
@@ -272,7 +319,7 @@ def run_params(case):
                 out.fail('param:cached-value', '%s: %s cached %r get_value %r, last delivered device value %r' % (desc, names[i], got, gv, want))
         # ---------------- (d) misc replies to their own request, exactly once
         cmd_of = {'default': 6, 'store': 3, 'clear': 5, 'state': 4}
-        for t in range(nthreads):
+        for t in range(nthreads) if not resending else ():
             for kind, cmd in cmd_of.items():
                 for idx in set(r['idx'] for r in results if r['thread'] == t and r['op'] == kind):
                     ops = [r for r in results if r['thread'] == t and r['op'] == kind and r['idx'] == idx and r.get('accepted')]
@@ -303,7 +350,7 @@ def run_params(case):
         s.sleep(2.0)
     issuing = len([t for t in case['threads'] if t])
     out.nontrivial = issuing >= 2 or max_outstanding_misc[0] >= 3 or boundary or any(_is_boundary(toc, r) for r in results if r['op'] == 'set')
-    out.feat('threads-%d' % issuing, 'v%d' % version, 'misc-outstanding-%d' % min(max_outstanding_misc[0], 3),
+    out.feat('threads-%d' % issuing, 'v%d' % version, 'link-needs-resending' if resending else 'reliable-link', 'misc-outstanding-%d' % min(max_outstanding_misc[0], 3),
              'notifications' if notif else 'no-notifications', 'boundary' if out.nontrivial and issuing < 2 else 'plain')
     return out
 
@@ -450,16 +497,23 @@ def param_case(draw):
                     op['unknown'] = False
                 burst.append(op)
             th[pos:pos] = burst
+    contended = False
     if nt >= 2 and draw(st.booleans()):
         pidx = draw(st.integers(0, 15))
         kinds = draw(st.permutations(['default', 'state', 'store', 'clear']))
+        contended = True
+        rep = draw(st.integers(1, 3))
         for th, kind in zip(threads, kinds):
-            th.insert(0, {'op': kind, 'p': pidx, 'gap': 0, 'same': False, 'shared': True})
+            th[0:0] = [{'op': kind, 'p': pidx, 'gap': 0, 'same': False, 'shared': True} for _ in range(rep)]
     notifications = draw(st.lists(st.fixed_dictionaries({'at': st.sampled_from([0.0, 0.0005, 0.001, 0.002, 0.01, 0.05, 0.3]), 'p': st.integers(0, 15),
                                                          'v': st.integers(0, 1000)}), max_size=4))
+    sched = draw(_sched)
+    if contended:
+        sched['rate'] = draw(st.sampled_from([0.2, 0.5, 0.5]))     # without preemption the threads simply run one after the other
     return {'version': draw(st.sampled_from([10, 10, 4, 3, 0])), 'tseed': draw(st.integers(0, 9)), 'threads': threads, 'notifications': notifications,
-            'delays': draw(st.lists(st.sampled_from([0.0, 0.0, 0.001, 0.001, 0.003, 0.01, 0.05, 0.3]), min_size=1, max_size=6)), 'schedule': draw(_sched)}
+            'delays': draw(st.lists(st.sampled_from([0.0, 0.0, 0.001, 0.001, 0.003, 0.01, 0.05, 0.3]), min_size=1, max_size=6)), 'schedule': sched,
+            'resending': draw(st.sampled_from([False, False, False, True]))}
 
 
 def subchecks(tier):
-    return [Sub('scripts', run_params, strategy=param_case(), examples={'quick': 250, 'thorough': 12000})]
+    return [Sub('scripts', run_params, strategy=param_case(), examples={'quick': 360, 'thorough': 12000})]
